@@ -135,7 +135,7 @@ def ring(n: int, c: Optional[SimplicialComplex] = None) -> SimplicialComplex:
 
     # construct the 0-simplices
     ss = []
-    for i in range(n + 1):
+    for i in range(n):
         ss.append(c.addSimplex())
 
     # construct the 1-simplices
